@@ -20,6 +20,7 @@ import (
 	"reflect"
 	"runtime"
 	"sort"
+	"strconv"
 	"strings"
 	"sync"
 	"sync/atomic"
@@ -522,12 +523,13 @@ func (b *box) doBlock(rc *proto.Recipe) proto.Resp {
 	if err != nil {
 		return proto.Resp{Op: "block", Err: err.Error(), Height: state.LastBlockHeight}
 	}
-	b.bs.SaveBlock(block, parts, seen)
 	b.mu.Lock()
 	b.recipe = rc
 	b.deliverIx = 0
 	b.curHeight = h
 	b.mu.Unlock()
+	b.crashIf("before:SaveBlock")
+	b.bs.SaveBlock(block, parts, seen)
 	b.crashIf("after:SaveBlock")
 
 	var cwg sync.WaitGroup
@@ -573,7 +575,8 @@ func (b *box) doBlock(rc *proto.Recipe) proto.Resp {
 		return r
 	}
 	b.state = newState
-	if rc.Crash == "after:ApplyBlock" {
+	if rc.Crash == "after:ApplyBlock" || strings.Contains(rc.Crash, "+") {
+		// (an armed delayed kill that has not fired yet fires here at the latest)
 		_ = syscall.Kill(os.Getpid(), syscall.SIGKILL)
 		select {}
 	}
@@ -618,6 +621,28 @@ func (b *box) crashIf(point string) {
 		_ = syscall.Kill(os.Getpid(), syscall.SIGKILL)
 		select {}
 	}
+	if rc != nil {
+		armDelayed(rc.Crash, point)
+	}
+}
+
+// armDelayed handles crash points of the form "<boundary>+<microseconds>": the
+// kill comes that long after the boundary, i.e. somewhere inside the call (or
+// the Tendermint bookkeeping) that follows it.
+func armDelayed(crash, point string) {
+	if !strings.HasPrefix(crash, point+"+") {
+		return
+	}
+	us, err := strconv.Atoi(strings.TrimPrefix(crash, point+"+"))
+	if err != nil {
+		return
+	}
+	go func() {
+		if us > 0 {
+			time.Sleep(time.Duration(us) * time.Microsecond)
+		}
+		_ = syscall.Kill(os.Getpid(), syscall.SIGKILL)
+	}()
 }
 
 func (b *box) boundary(when, method string) string {
@@ -653,6 +678,7 @@ func (b *box) atBoundary(point string) {
 		_ = syscall.Kill(os.Getpid(), syscall.SIGKILL)
 		select {}
 	}
+	armDelayed(rc.Crash, point)
 }
 
 func (b *box) before(method string, req interface{}) {
